@@ -21,7 +21,9 @@ class WrapUse(Stream):
             "read of cubbyhole/response, an unrelated request with the wrapping token; seeded schedules (random, bursts, "
             "sequential) at storage-operation granularity; observed events, outcomes (payload obtained or not), final "
             "existence of token entry / cubbyhole keys, a later attempt and the unwrap of a rewrapped token are replayed "
-            "on the Lean model; plus, sequentially, 20 policy probes with fresh wrapping tokens and TTL expiry (1 s TTL, "
+            "on the Lean model; 12 (thorough 120) sequential rewrap histories (wrap, lookup, third-/first-party rewrap generations, "
+            "lookup on each new token, unwrap) comparing creation_path / creation_ttl / creation-time class of lookup and of every "
+            "wrap_info; plus, sequentially, 20 policy probes with fresh wrapping tokens and TTL expiry (1 s TTL, "
             "2.2 s sleep); non-trivial = answer is not a refusal; distinct = distinct op line")
 
     def nontrivial(self, op, impl):
@@ -41,6 +43,39 @@ class WrapUse(Stream):
                     out.append("wrapping token still usable after a request consumed its use: " + a)
                 if f[0] == "expiry" and (obtained(a) or a.startswith("ok")):
                     out.append("payload obtainable after the wrapping token's TTL elapsed: " + a)
+            return out
+        if first[0] == "hist":
+            # lookup reports the path (and TTL) of the request that was ORIGINALLY wrapped, after any number of rewraps
+            path, ttl = first[1], first[2]
+            want = "path:%s/ttl:%s" % (path, ttl)
+            hist, live, gen = [], True, 0
+            for o, a in zip(ops, impls):
+                f = o.split("\t")
+                hist.append(" ".join(f) + " => " + a)
+                where = "after %d rewrap(s) of a response wrapped for %s (history: %s)" % (gen, path, "; ".join(hist))
+                if f[0] == "hist" and a != want:
+                    out.append("wrap_info handed to the requester does not name the wrapped request: " + where)
+                elif f[0] == "hlookup" and a.startswith("path:"):
+                    if not a.startswith(want + "/"):
+                        out.append("sys/wrapping/lookup does not report the path / TTL of the originally wrapped request " + where)
+                    elif not a.endswith("/time:fresh"):
+                        out.append("sys/wrapping/lookup reports a creation time outside the token's creation " + where)
+                    if not live:
+                        out.append("lookup answered for a wrapping token that was already used " + where)
+                elif f[0] == "hlookup" and live:
+                    out.append("lookup on the live wrapping token failed (%s) %s" % (a, where))
+                elif f[0] == "hrewrap" and a.startswith("path:"):
+                    gen += 1
+                    if a != want:
+                        out.append("rewrap's wrap_info does not name the originally wrapped request " + where)
+                elif f[0] == "hrewrap":
+                    if live and f[1] == "3":
+                        out.append("third-party rewrap of the live token failed (%s) %s" % (a, where))
+                    live = False if f[1] == "1" else live
+                elif f[0] == "hunwrap":
+                    if live != obtained(a):
+                        out.append("unwrap at the end of the chain: %s (token live: %s) %s" % (a, live, where))
+                    live = False
             return out
         if first[0] != "winit":
             return ["case without winit"]
@@ -166,7 +201,8 @@ class C18(PropCheck):
                   "payload_only_through_use, after_unwrap_gone (entry invisible in every continuation, nobody else passes), "
                   "after_unwrap_deleted (two worker steps later token, payload and wrap info are deleted; full since the repair "
                   "of F44), third_party_unwrap_deletes, "
-                  "payload_not_to_requester, wrap_token_grants_nothing_else. Tie: trace validation of observed schedules of a "
+                  "payload_not_to_requester, wrap_token_grants_nothing_else, lookup_reports_creation_path (any history of rewrap "
+                  "generations: lookup on the live token reports path and TTL of the ORIGINAL request). Tie: trace validation of observed schedules of a "
                   "real Core on a gated backend on every run, policy probes, TTL expiry; the property predicate is evaluated "
                   "directly on the observed outcomes")
     level_note = ("trusted: Lean kernel; hand-written model Obao/Model/UseCount.lean and its trace-validation tie; explicit "
